@@ -16,6 +16,8 @@ try:
                 mod.mutants(res, "quick", wd)
             if hasattr(mod, "apalache"):
                 mod.apalache(res, wd)
+            if hasattr(mod, "tlaps"):
+                mod.tlaps(res, wd)
         except Exception as e:
             print("warm %s: %s" % (eng, e))
 finally:
